@@ -2,6 +2,8 @@ package main
 
 import (
 	"fmt"
+	"regexp"
+	"strconv"
 	"go/token"
 	"go/types"
 	"sort"
@@ -43,6 +45,8 @@ type VC struct {
 	birth map[string]int
 	isAlloc map[string]bool
 	clock int
+	nilChecked map[string]bool
+	memClock map[string]int
 }
 
 // memLink records how a memory symbol was derived from its parent, so that a
@@ -171,7 +175,7 @@ func (vc *VC) setRow(st *State, s Sort, ref, row string) {
 
 
 func newVC(eng *Engine, fn string) *VC {
-	return &VC{links: map[string]*memLink{}, birth: map[string]int{}, isAlloc: map[string]bool{}, eng: eng, declared: map[string]string{}, sorts: map[Sort]bool{}, unmodelled: map[string]bool{},
+	return &VC{memClock: map[string]int{}, nilChecked: map[string]bool{}, links: map[string]*memLink{}, birth: map[string]int{}, isAlloc: map[string]bool{}, eng: eng, declared: map[string]string{}, sorts: map[Sort]bool{}, unmodelled: map[string]bool{},
 		assumptions: map[string]bool{}, axiomsUsed: map[string]bool{}, funcName: fn, counters: map[string]int{}}
 }
 
@@ -228,7 +232,11 @@ func (vc *VC) fresh(prefix string, s Sort) string {
 
 func (vc *VC) freshRaw(prefix, sortExpr string) string {
 	vc.n++
-	return vc.declRaw(fmt.Sprintf("%s!%d", mangle(prefix), vc.n), sortExpr)
+	name := vc.declRaw(fmt.Sprintf("%s!%d", mangle(prefix), vc.n), sortExpr)
+	if strings.HasPrefix(prefix, "M_") {
+		vc.memClock[name] = vc.clock
+	}
+	return name
 }
 
 func (vc *VC) assert(t string) {
@@ -240,11 +248,14 @@ func (vc *VC) assert(t string) {
 
 // bind names a term (keeps the emitted text small)
 func (vc *VC) bind(prefix string, s Sort, term string) string {
-	if !strings.ContainsAny(term, " ") {
+	if !strings.ContainsAny(term, " ") || strings.HasPrefix(term, "(at!") {
 		return term
 	}
 	c := vc.fresh(prefix, s)
 	vc.assert(sEq(c, term))
+	if b, ok := vc.birth[term]; ok {
+		vc.birth[c] = b
+	}
 	return c
 }
 
@@ -272,19 +283,66 @@ func (vc *VC) oblig(kind, label, reach, goal string, pos token.Position, props [
 }
 
 // elemSlot: slot of element idx of a slice/array starting at slot off with w slots per element.
-// An uninterpreted function (with a defining axiom) rather than arithmetic, so that
-// quantifier patterns over element accesses match syntactically.
+// An uninterpreted function at!W!C(off, idx) = off + W*idx + C (with a defining axiom) rather than
+// arithmetic, so that quantifier patterns over element accesses match syntactically.
 func (vc *VC) elemSlot(off, idx string, w int) string {
-	if isIntLit(idx) && isIntLit(off) {
-		// constant index into a constant-offset object: plain arithmetic is fine and canonical
-	}
-	name := fmt.Sprintf("at!%d", w)
+	return vc.atTerm(w, 0, off, idx)
+}
+
+func (vc *VC) atTerm(w, c int, off, idx string) string {
+	name := fmt.Sprintf("at!%d!%d", w, c)
 	if _, ok := vc.declared[name]; !ok {
 		vc.declared[name] = "at"
 		vc.decls = append(vc.decls, fmt.Sprintf("(declare-fun %s (Int Int) Int)", name))
-		vc.decls = append(vc.decls, fmt.Sprintf("(assert (forall ((o Int) (i Int)) (! (= (%s o i) (+ o (* %d i))) :pattern ((%s o i)))))", name, w, name))
+		vc.decls = append(vc.decls, fmt.Sprintf("(assert (forall ((o Int) (i Int)) (! (= (%s o i) (+ o (* %d i) %d)) :pattern ((%s o i)))))", name, w, c, name))
 	}
 	return app(name, off, idx)
+}
+
+var atRe = regexp.MustCompile(`^\(at!(\d+)!(\d+) (.*)\)$`)
+var plusRe = regexp.MustCompile(`^\(\+ (.*) (\d+)\)$`)
+
+// addSlot adds a constant to a slot term, keeping at-terms and constant offsets canonical
+func (vc *VC) addSlot(slot string, k int) string {
+	if k == 0 {
+		return slot
+	}
+	if isIntLit(slot) && !strings.HasPrefix(slot, "(") {
+		n, _ := strconv.Atoi(slot)
+		return strconv.Itoa(n + k)
+	}
+	if m := atRe.FindStringSubmatch(slot); m != nil {
+		w, _ := strconv.Atoi(m[1])
+		c, _ := strconv.Atoi(m[2])
+		rest := m[3]
+		// rest = "off idx": split at top level
+		if i := splitTopSpace(rest); i > 0 {
+			return vc.atTerm(w, c+k, rest[:i], rest[i+1:])
+		}
+	}
+	if m := plusRe.FindStringSubmatch(slot); m != nil && balanced(m[1]) {
+		n, _ := strconv.Atoi(m[2])
+		return app("+", m[1], strconv.Itoa(n+k))
+	}
+	return app("+", slot, strconv.Itoa(k))
+}
+
+// splitTopSpace returns the index of the space separating the two top-level s-expressions of s
+func splitTopSpace(s string) int {
+	d := 0
+	for i, c := range s {
+		switch c {
+		case '(':
+			d++
+		case ')':
+			d--
+		case ' ':
+			if d == 0 {
+				return i
+			}
+		}
+	}
+	return -1
 }
 
 func (vc *VC) header() string {
@@ -413,7 +471,14 @@ func (vc *VC) loadComp(st *State, s Sort, ref, slot string) string {
 	if row != "" {
 		return app("select", row, slot)
 	}
-	return app("select", app("select", m, ref), slot)
+	t := app("select", app("select", m, ref), slot)
+	if s == SInt {
+		// a reference read from memory state m denotes an object that existed when m was current
+		if _, ok := vc.birth[t]; !ok {
+			vc.birth[t] = vc.memClock[m] // 0 for the entry memory
+		}
+	}
+	return t
 }
 
 func (vc *VC) storeComp(st *State, s Sort, ref, slot, val string) {
